@@ -420,7 +420,7 @@ theorem C18_reload_all (s : Req) (now : Int) (recs : List Rec) (c : Cache) (s' :
     · simp only [Option.some.injEq, Prod.mk.injEq] at hs
       obtain ⟨-, hs2⟩ := hs
       subst hs2
-      rcases processAll_key_or_all lower c now recs s.info with hk | hall
+      rcases processAll_key_or_all lower c now (addrLast recs) s.info with hk | hall
       · exact absurd hk hchg
       · exact hall
     · exact absurd hs (by simp)
@@ -460,6 +460,58 @@ example : CacheSuffices id [exSrvLive, exSrvDead, exAddr] "i._x._tcp.local." 500
 /-- … and the (repaired) lookup answers from it at once, with the valid SRV's data, sending nothing -/
 example : (step id (Req.init id "i._x._tcp.local." 200 0) (.start 5000 [exSrvLive, exSrvDead, exAddr] [] 20)).map
     (fun p => (p.2.ret, p.2.sent.isSome, p.2.info.port, p.2.info.v4)) = some (some true, false, some 80, [[10, 0, 0, 1]]) := by decide
+
+/-! ## handed an address ⇒ success, in any record order (the "iff" for the cache reading; D22 repaired) -/
+
+/-- **A lookup that is handed an unexpired address of its host succeeds — whatever the order of the
+records in the datagram.**  From any state: if the list handed to `async_update_records` contains a
+well-formed address record `x`, unexpired, whose key is the host the info object names *after* the block
+(the host may have been learned from an SRV record that comes later in the same list), then its address
+is in the info object after the block, and the next resumption of the task returns `true`.
+Together with `C18_cache_load_all` / `C18_reload_all` (addresses that were already in the cache when the
+host was learned) this is the "if" direction of "succeeds iff it knows an address" read over everything
+the instance was told, not only over the object; the "only if" direction is `C18_iff` + `C18_success_prov`.
+(Before the repair of D22 this was false: `[A, SRV]` in one datagram lost the address for good.) -/
+theorem C18_handed_address (s : Req) (now : Int) (recs : List Rec) (c : Cache) (s' : Req) (o : Out)
+    (hs : step lower s (.update now recs c) = some (s', o))
+    (x : Rec) (a : Bytes) (hx : x ∈ recs) (ha : addrObj x = some a) (he : x.isExpired now = false)
+    (hk : o.info.serverKey = some (lower x.name)) :
+    a ∈ o.info.v4 ++ o.info.v6 ∧
+    ∀ now2 c2 h2 d2 s2 o2, step lower s' (.resume now2 c2 h2 d2) = some (s2, o2) → o2.ret = some true := by
+  simp only [step] at hs
+  split at hs
+  · split at hs
+    · simp only [Option.some.injEq, Prod.mk.injEq] at hs
+      obtain ⟨hs1, hs2⟩ := hs
+      subst hs2
+      have hin := update_keeps_address lower c now s.info recs x a hx hk he ha
+      refine ⟨hin, ?_⟩
+      intro now2 c2 h2 d2 s2 o2 hs2
+      have hcomp : s'.info.complete = true := by
+        rw [← hs1]
+        simp only [Info.complete, GenFacts.Lookup.is_complete_iff]
+        simp only [List.mem_append] at hin
+        rcases hin with h | h
+        · exact Or.inl (by intro h0; rw [List.length_eq_zero_iff] at h0; rw [h0] at h; exact absurd h (by simp))
+        · exact Or.inr (by intro h0; rw [List.length_eq_zero_iff] at h0; rw [h0] at h; exact absurd h (by simp))
+      simp only [step] at hs2
+      split at hs2
+      · split at hs2
+        · simp only [Option.some.injEq] at hs2
+          have hr : (iter lower s' now2 c2 h2 d2).2.ret = some true := by
+            unfold iter
+            rw [if_pos hcomp]
+          rw [hs2] at hr
+          exact hr
+        · exact absurd hs2 (by simp)
+      · exact absurd hs2 (by simp)
+    · exact absurd hs (by simp)
+  · exact absurd hs (by simp)
+
+/-- non-vacuity: `[A, SRV]` in one datagram — the former D22 witness — now completes the lookup -/
+example : (run id (Req.init id "i._x._tcp.local." 3000 0)
+    [.start 5000 [] [] 20, .update 5100 [{ exAddr with created := 5100 }, { exSrvLive with created := 5100 }] [], .resume 5100 [] [] 20]).map
+    (fun p => (p.1.phase, p.1.info.v4)) = some (.done true, [[10, 0, 0, 1]]) := by decide
 
 /-- non-vacuity of `C18_asks_first` / `C18_asks_later`: an empty cache does not complete the info; the
 `start` block transmits the QU query (4 questions), and the timer-resumed block at +220 ms the QM query -/
